@@ -671,6 +671,13 @@ class Interp:
                         root = root.value
                     if isinstance(root, ast.Name) and root.id not in assigned:
                         assigned.append(root.id)
+                elif isinstance(n, ast.Call) and isinstance(n.func, ast.Attribute) \
+                        and n.func.attr in MUTATORS:
+                    root = n.func.value
+                    while isinstance(root, (ast.Attribute, ast.Subscript)):
+                        root = root.value
+                    if isinstance(root, ast.Name) and root.id not in assigned:
+                        assigned.append(root.id)
         benv = dict(env)
         for n in assigned:
             if n in env:
@@ -735,6 +742,9 @@ class Interp:
         if isinstance(target, (ast.Attribute, ast.Subscript)):
             base_t = self.eval(self._load(target.value), env, frame, cond)
             if isinstance(target, ast.Attribute):
+                if target.attr == 'attrs' and not aug:
+                    # xarray's attrs setter stores dict(value): a new dict
+                    v = intern(('copy', 'shallow', v))
                 new = intern(('upd', base_t, 'attr', target.attr, v))
                 if not aug:
                     self.effect('setattr', frame, target, cond, base=base_t,
